@@ -88,7 +88,12 @@ def replay(payload):
 
     class T:
         pass
-    for opts in combos:
+    # the element type of the fuel-mass array must not matter: float kilograms, and whole kilograms in an integer array
+    int_mass = np.array([9000, 8601, 8203, 7807, 7411, 6907, 6403, 5899, 5395, 4997, 4499, 4001], dtype=np.int64)
+    combos = [(o, False) for o in combos] + [(o, True) for o in combos[:6]]
+    if m.get('fuel_masses_are_integers'):
+        combos = [c for c in combos if c[1]] + [c for c in combos if not c[1]]
+    for opts, whole_kg in combos:
         Config.reset()
         try:
             Config.load(data_path_overrides=[root + '/tests/data'], emissions=opts)
@@ -97,7 +102,7 @@ def replay(payload):
                 fuel = Fuel.model_validate(tomllib.load(f))
             n = 12
             t = T()
-            t.fuel_mass = np.linspace(9000.0, 4000.0, n)
+            t.fuel_mass = int_mass.copy() if whole_kg else np.linspace(9000.0, 4000.0, n)
             t.altitude = np.concatenate([np.linspace(1000, 10500, 4), np.full(4, 10500.0), np.linspace(10500, 1500, 4)])
             t.true_airspeed = np.full(n, 220.0)
             t.fuel_flow = np.concatenate([np.full(4, 1.6), np.full(4, 0.8), np.full(4, 0.3)])
@@ -146,6 +151,15 @@ def replay(payload):
                             vals = np.asarray(v if isinstance(v, np.ndarray) else [v[mo] for mo in v])
                             if np.any(vals != 0) and s.name != 'PMnvolGMD':
                                 problems.append(dict(options=opts, outcome=f'{s.name} is switched off but non-zero'))
+            for s in e.trajectory_emissions:
+                if s in e.trajectory_indices:
+                    want = np.asarray(e.trajectory_indices[s], float) * np.asarray(e.fuel_burn_per_segment, float)
+                    got = np.asarray(e.trajectory_emissions[s], float)
+                    if got.shape != want.shape or not np.allclose(got, want, rtol=1e-9, atol=1e-12):
+                        k = int(np.argmax(np.abs(got - want))) if got.shape == want.shape else -1
+                        problems.append(dict(options=opts, fuel_mass_dtype=str(t.fuel_mass.dtype),
+                                             outcome=f'{s.name}: segment {k} amount {got[k] if k >= 0 else got.shape} but index x segment fuel = {want[k] if k >= 0 else want.shape}'))
+                        break
             lto_mode = opts.get('climb_descent_mode') == 'lto'
             tf = float(np.sum(e.fuel_burn_per_segment[(t.n_climb if lto_mode else 0):(n - t.n_descent if lto_mode else n)]))
             lf = float(e.total_fuel_burn)
